@@ -7,10 +7,10 @@ PROP = dict(
                   files={"zz_verif_fixture_test.go": "harness/main/fixture_test.go",
                          "zz_verif_c19_test.go": "harness/main/c19_test.go"},
                   timeout=900, timeout_thorough=2400)],
-    technique="Coq proof (stream = filter keep archived; index path = scan path by a sorted-same-members argument) + differential run of StreamTransactions/StreamBlocks on generated epochs over ranges x filter combinations x index on/off",
+    technique="Coq proof; the transaction predicate is TRANSLATED from the Go closure filterOutTxn on every run (gen/c19.go -> Generated/FilterProgC19.v) and proved equal to the filter specification for every filter, transaction and path (never dereferencing an absent flag); (stream = filter keep archived; index path = scan path by a sorted-same-members argument) + differential run of StreamTransactions/StreamBlocks on generated epochs over ranges x filter combinations x index on/off",
     level_text="Theorems (Coq, no axioms), for every archive, range and filter: the scan path streams exactly filter(keep) of the archived transactions in ascending slot/position order and skips slots without a block; StreamBlocks streams exactly the (account-filtered) archived blocks, ascending and inside the range; with a complete address index the index-accelerated path streams exactly what the scan path streams (forced hypothesis: per-account matches within the query limit). Inverted polarity, stop-at-skipped-slot and the cap are refuted by witnesses. Tie: two adjacent generated epochs + a dense one, 7 ranges (inside / across epochs / empty), up to 271 filter combinations, address index loaded or not; every streamed message is matched with the generator's truth and the streamed id lists are re-computed by the Coq model.",
     level_note="Trusted: Coq kernel; hand-written model C19_Stream.v; solana-go transaction decoding and protobuf metadata parsing; the address index's completeness is C06's subject. Hypothesis named in the theorem: at most `limit` matching transactions per included account (the repaired code passes math.MaxInt).",
     design_ref="5 (C19)",
-    trusted=["model C19_Stream.v of grpc-server.go (hand-written; tied by differential streaming runs)"] + COMMON_TRUSTED,
+    trusted=["translator gen/c19.go (statement-by-statement translation of filterOutTxn into the guard language of C19_Prog.v; anything unrecognised is an error) and the semantics of that language; txMentionsAccount / getErr / IsSimpleVoteTransaction are atoms (tied by the differential run)", "model C19_Stream.v of grpc-server.go (hand-written; tied by differential streaming runs)"] + COMMON_TRUSTED,
     assumptions=["address index complete (C06)", "per-account matches <= query limit (the code passes math.MaxInt)"],
 )
